@@ -438,7 +438,12 @@ func (u *upstream) doSlotsRefresh() error {
 	u.MakeRequestToHost(addr, req)
 
 	// wait done
-	req.Wait()
+	// NOTE: The backend may never answer, don't block the stop of upstream.
+	select {
+	case <-req.done:
+	case <-u.quit:
+		return errors.New(upstreamExited)
+	}
 	resp := req.Response()
 	if resp.Type == Error {
 		return errors.New(string(resp.Text))
